@@ -57,14 +57,17 @@ Definition t3 (first second : N) : tree :=
 Theorem C18_order_refuted :
   snd (load (t3 11 1) 100) = None /\ snd (load (t3 1 11) 100) = Some (EDepth 11).
 Proof. vm_compute. split; reflexivity. Qed.
+Print Assumptions C18_order_refuted.
 
 (* non-vacuity: a diamond is a good graph and is accepted *)
 Example C18_hyp_sat :
   snd (load (tree_of [(0, (0, [1; 2])); (1, (1, [3])); (2, (2, [3])); (3, (3, []))]) 0) = None.
 Proof. vm_compute. reflexivity. Qed.
+Print Assumptions C18_hyp_sat.
 
 (* the constants of the model (varint byte budgets, magic bytes, format version, nesting limit, default
    buffer size >= 10) are those of the current sources (Gen/Tables.v is regenerated from /repo on every run) *)
 From YV Require Import Proofs.GenTie.
 Theorem C18_constants_are_the_sources : constants_statement.
 Proof. exact constants_agree. Qed.
+Print Assumptions C18_constants_are_the_sources.
